@@ -31,13 +31,17 @@ Definition est_ok (s : est) : Prop :=
   in_i32 (e_hdr s) /\ in_i32 (e_t s) /\ in_i32 (e_td s) /\
   (e_l s <= 255)%nat /\ (e_tz s <= 64)%nat /\ length (e_v s) = 64%nat.
 
+(* one point through the regenerated Compress: the bits of its events and the new fields *)
+Definition gen_step (st : Z * Z * Z * Z * Z * Z) (p : N * N) : list bool * (Z * Z * Z * Z * Z * Z) :=
+  let '(_, st', evs) := gen_Compress st (Z.of_N (fst p)) (Z.of_N (snd p)) in (evs_bits evs, st').
+
 Fixpoint gen_compress_all (st : Z * Z * Z * Z * Z * Z) (pts : list (N * N)) : list bool * (Z * Z * Z * Z * Z * Z) :=
   match pts with
   | [] => ([], st)
-  | (t, v) :: r =>
-    let '(_, st', evs) := gen_Compress st (Z.of_N t) (Z.of_N v) in
-    let '(bs, st'') := gen_compress_all st' r in
-    (evs_bits evs ++ bs, st'')
+  | p :: r =>
+    let bs' := gen_step st p in
+    let rest := gen_compress_all (snd bs') r in
+    (fst bs' ++ fst rest, snd rest)
   end.
 
 (* ---------- lists by position ---------- *)
@@ -68,7 +72,7 @@ Lemma nth_N2bits_rev : forall k n i, (i < k)%nat ->
 Proof.
   induction k as [|k IH]; intros n i H; [lia|]. cbn [N2bits_rev]. destruct i as [|i].
   - cbn [nth]. change (N.of_nat 0) with 0%N. symmetry. apply N.bit0_odd.
-  - cbn [nth]. rewrite IH by lia. rewrite N.div2_spec. f_equal. lia.
+  - cbn [nth]. rewrite IH by lia. rewrite Nat2N.inj_succ. symmetry. apply N.testbit_succ_r_div2. lia.
 Qed.
 
 Lemma nth_N2bits k n i : (i < k)%nat ->
@@ -218,7 +222,7 @@ Theorem gen_leardingZeros_is_lz : forall x : N, (x < 2 ^ 64)%N ->
   gen_leardingZeros (Z.of_N x) = Z.of_nat (lz (N2bits 64 x)).
 Proof.
   intros x Hx. rewrite gen_leardingZeros_zloop.
-  change 0 with (Z.of_nat 0) at 2.
+  change 0 with (Z.of_nat 0) at 1.
   rewrite (zloop_spec _ (fun r => 63 - Z.of_nat r) (Z.of_N x) (N2bits 64 x)).
   - reflexivity.
   - apply N2bits_length.
@@ -238,7 +242,7 @@ Theorem gen_trailingZeros_is_tz : forall x : N, (x < 2 ^ 64)%N ->
   gen_trailingZeros (Z.of_N x) = Z.of_nat (tz (N2bits 64 x)).
 Proof.
   intros x Hx. rewrite gen_trailingZeros_zloop.
-  change 0 with (Z.of_nat 0) at 2.
+  change 0 with (Z.of_nat 0) at 1.
   unfold tz, N2bits. rewrite rev_involutive.
   rewrite (zloop_spec _ (fun r => Z.of_nat r) (Z.of_N x) (N2bits_rev 64 x)).
   - reflexivity.
@@ -253,3 +257,277 @@ Proof.
   - intros _. reflexivity.
 Qed.
 Print Assumptions gen_trailingZeros_is_tz.
+
+(* ---------- wrappers ---------- *)
+Ltac pw :=
+  change (2 ^ 64) with 18446744073709551616 in *;
+  change (2 ^ (64 - 1)) with 9223372036854775808 in *;
+  change (2 ^ 32) with 4294967296 in *;
+  change (2 ^ (32 - 1)) with 2147483648 in *;
+  change (2 ^ 8) with 256 in *.
+Ltac unwrap := unfold wrap_u64, wrap_i64, wrap_u32, wrap_i32, wrap_u8, wrap_s, wrap_u in *; pw.
+
+Lemma wrap_i32_is z : wrap_i32 z = wrap32s z.
+Proof. unfold wrap32s. unwrap. reflexivity. Qed.
+
+Lemma wrap_i64_small z : -9223372036854775808 <= z < 9223372036854775808 -> wrap_i64 z = z.
+Proof. intros H. unwrap. lia. Qed.
+
+Lemma wrap_u64_small z : 0 <= z < 18446744073709551616 -> wrap_u64 z = z.
+Proof. intros H. unwrap. lia. Qed.
+
+Lemma zbits_nat k (n : nat) z : z = Z.of_nat n -> zbits k z = N2bits k (N.of_nat n).
+Proof. intros ->. rewrite <- nat_N_Z. apply zbits_of_N. Qed.
+
+(* ---------- writeInt64Bits ---------- *)
+Lemma gen_writeInt64Bits_ev dod n : (n = 7 \/ n = 9 \/ n = 12 \/ n = 32) ->
+  exists u, gen_writeInt64Bits dod n = (tt, tt, [(1, [u; n])]) /\ u mod 2 ^ n = dod mod 2 ^ n.
+Proof.
+  intros Hn. unfold gen_writeInt64Bits. cbv zeta. cbn [app].
+  destruct ((0 <=? dod) || (64 <=? n)) eqn:E.
+  - exists (wrap_u64 dod). split.
+    + destruct Hn as [-> | [-> | [-> | ->]]]; reflexivity.
+    + unwrap. destruct Hn as [-> | [-> | [-> | ->]]];
+        [change (2 ^ 7) with 128|change (2 ^ 9) with 512|change (2 ^ 12) with 4096|change (2 ^ 32) with 4294967296]; lia.
+  - exists (wrap_u64 (wrap_i64 (wrap_i64 (Z.shiftl 1 n) + dod))). split.
+    + destruct Hn as [-> | [-> | [-> | ->]]]; reflexivity.
+    + destruct Hn as [-> | [-> | [-> | ->]]].
+      * change (Z.shiftl 1 7) with 128. change (2 ^ 7) with 128. unwrap. lia.
+      * change (Z.shiftl 1 9) with 512. change (2 ^ 9) with 512. unwrap. lia.
+      * change (Z.shiftl 1 12) with 4096. change (2 ^ 12) with 4096. unwrap. lia.
+      * change (Z.shiftl 1 32) with 4294967296. unwrap. lia.
+Qed.
+
+(* ---------- compressTimestamp ---------- *)
+Lemma gen_compressTimestamp_is_model (s : est) (t : N) (c_l c_tz c_v : Z) :
+  in_i32 (e_t s) -> in_i32 (e_td s) ->
+  let '(_, st', evs) := gen_compressTimestamp (e_hdr s, e_t s, e_td s, c_l, c_tz, c_v) (Z.of_N t) in
+  let '(tb, ti, delta) := enc_ts s t in
+  evs_bits evs = tb /\ st' = (e_hdr s, ti, delta, c_l, c_tz, c_v).
+Proof.
+  intros Ht Htd. unfold gen_compressTimestamp, enc_ts. cbv beta iota zeta.
+  rewrite (wrap_i32_is (Z.of_N t)). rewrite (wrap_i32_is (wrap32s (Z.of_N t) - e_t s)).
+  set (ti := wrap32s (Z.of_N t)).
+  set (delta := wrap32s (ti - e_t s)).
+  assert (Hd : in_i32 delta) by apply wrap32s_range.
+  unfold in_i32 in *.
+  rewrite (wrap_i64_small delta) by lia.
+  rewrite (wrap_i64_small (e_td s)) by lia.
+  rewrite (wrap_i64_small (delta - e_td s)) by lia.
+  set (dod := delta - e_td s).
+  destruct (dod =? 0) eqn:E0; [split; reflexivity|].
+  destruct ((-63 <=? dod) && (dod <=? 64)) eqn:E1.
+  { destruct (gen_writeInt64Bits_ev dod 7) as (u & Eu & Hu); [tauto|]. rewrite Eu.
+    cbn [app]. split; [|reflexivity].
+    cbn [evs_bits flat_map ev_bits app]. change (Z.to_nat 7) with 7%nat.
+    rewrite (zbits_congr 7 u dod Hu). rewrite app_nil_r. reflexivity. }
+  destruct ((-255 <=? dod) && (dod <=? 256)) eqn:E2.
+  { destruct (gen_writeInt64Bits_ev dod 9) as (u & Eu & Hu); [tauto|]. rewrite Eu.
+    cbn [app]. split; [|reflexivity].
+    cbn [evs_bits flat_map ev_bits app]. change (Z.to_nat 9) with 9%nat.
+    rewrite (zbits_congr 9 u dod Hu). rewrite app_nil_r. reflexivity. }
+  destruct ((-2047 <=? dod) && (dod <=? 2048)) eqn:E3.
+  { destruct (gen_writeInt64Bits_ev dod 12) as (u & Eu & Hu); [tauto|]. rewrite Eu.
+    cbn [app]. split; [|reflexivity].
+    cbn [evs_bits flat_map ev_bits app]. change (Z.to_nat 12) with 12%nat.
+    rewrite (zbits_congr 12 u dod Hu). rewrite app_nil_r. reflexivity. }
+  destruct (gen_writeInt64Bits_ev dod 32) as (u & Eu & Hu); [tauto|]. rewrite Eu.
+  cbn [app]. split; [|reflexivity].
+  cbn [evs_bits flat_map ev_bits app]. change (Z.to_nat 32) with 32%nat.
+  rewrite (zbits_congr 32 u dod Hu). rewrite app_nil_r. reflexivity.
+Qed.
+
+(* ---------- compressValue ---------- *)
+Lemma Z_lxor_of_N p v : Z.lxor (Z.of_N p) (Z.of_N v) = Z.of_N (N.lxor p v).
+Proof. destruct p, v; reflexivity. Qed.
+
+Lemma reuse_bits (l0 t0 : nat) (X : N) : (l0 + t0 <= 64)%nat ->
+  evs_bits [(0, [1]); (0, [0]);
+            (1, [wrap_u64 (Z.shiftr (Z.of_N X) (Z.of_nat t0));
+                 wrap_i64 (wrap_u8 (wrap_u8 (64 - Z.of_nat l0) - Z.of_nat t0))])]
+  = true :: false :: slice l0 t0 (N2bits 64 X).
+Proof.
+  intros H. cbn [evs_bits flat_map ev_bits app Z.eqb negb]. rewrite app_nil_r. f_equal. f_equal.
+  replace (wrap_i64 (wrap_u8 (wrap_u8 (64 - Z.of_nat l0) - Z.of_nat t0))) with (Z.of_nat (64 - l0 - t0))
+    by (unwrap; lia).
+  rewrite Nat2Z.id. rewrite zbits_wrap_u64 by lia. apply slice_N2bits. exact H.
+Qed.
+
+Lemma new_bits (L T : Z) (l tz : nat) (X : N) :
+  L = Z.of_nat l -> T = Z.of_nat tz -> (l <= 31)%nat -> (l + tz < 64)%nat ->
+  evs_bits [(0, [1]); (0, [1]); (1, [wrap_u64 L; 5]);
+            (1, [wrap_u64 (wrap_u8 (wrap_u8 (64 - L) - T)); 6]);
+            (1, [wrap_u64 (Z.shiftr (Z.of_N X) T); wrap_i64 (wrap_u8 (wrap_u8 (64 - L) - T))])]
+  = true :: true :: N2bits 5 (N.of_nat l) ++ N2bits 6 (N.of_nat (64 - l - tz)) ++ slice l tz (N2bits 64 X).
+Proof.
+  intros -> -> Hl Hlt. cbn [evs_bits flat_map ev_bits app Z.eqb negb]. rewrite app_nil_r. f_equal. f_equal.
+  change (Z.to_nat 5) with 5%nat. change (Z.to_nat 6) with 6%nat.
+  assert (ES : wrap_u8 (wrap_u8 (64 - Z.of_nat l) - Z.of_nat tz) = Z.of_nat (64 - l - tz)) by (unwrap; lia).
+  rewrite ES. f_equal; [|f_equal].
+  - rewrite zbits_wrap_u64 by lia. apply zbits_nat. reflexivity.
+  - rewrite zbits_wrap_u64 by lia. apply zbits_nat. reflexivity.
+  - rewrite (wrap_i64_small (Z.of_nat (64 - l - tz))) by lia.
+    rewrite Nat2Z.id. rewrite zbits_wrap_u64 by lia. apply slice_N2bits. lia.
+Qed.
+
+Lemma gen_compressValue_is_model (h t td : Z) (l0 t0 : nat) (p v : N) :
+  (p < 2 ^ 64)%N -> (v < 2 ^ 64)%N -> (l0 <= 255)%nat -> (t0 <= 64)%nat ->
+  let '(_, st', evs) := gen_compressValue (h, t, td, Z.of_nat l0, Z.of_nat t0, Z.of_N p) (Z.of_N v) in
+  let '(vb, l, tz') := enc_val l0 t0 (N2bits 64 p) (N2bits 64 v) in
+  evs_bits evs = vb /\ st' = (h, t, td, Z.of_nat l, Z.of_nat tz', Z.of_N v) /\
+  (l <= 255)%nat /\ (tz' <= 64)%nat.
+Proof.
+  intros Hp Hv Hl0 Ht0. unfold gen_compressValue, enc_val. cbv beta iota zeta.
+  set (X := (N.lxor p v mod 2 ^ 64)%N).
+  assert (HX : (X < 2 ^ 64)%N) by (unfold X; apply N.mod_lt; discriminate).
+  assert (EX : wrap_u64 (Z.lxor (Z.of_N p) (Z.of_N v)) = Z.of_N X).
+  { unfold X. rewrite Z_lxor_of_N. unfold wrap_u64, wrap_u.
+    change (2 ^ 64) with (Z.of_N (2 ^ 64)). rewrite <- N2Z.inj_mod. reflexivity. }
+  rewrite EX. clear EX.
+  assert (Ex : xorw (N2bits 64 p) (N2bits 64 v) = N2bits 64 X).
+  { rewrite <- N2bits_lxor. unfold X. symmetry. apply (N2bits_mod 64). }
+  rewrite Ex. clear Ex.
+  rewrite (iszero_N2bits64 X HX).
+  destruct (N.eqb_spec X 0) as [E0|E0].
+  - replace (Z.of_N X =? 0) with true by lia. cbv beta iota. cbn [app].
+    repeat split; try reflexivity; lia.
+  - replace (Z.of_N X =? 0) with false by lia. cbv beta iota.
+    rewrite (gen_leardingZeros_is_lz X HX), (gen_trailingZeros_is_tz X HX).
+    set (x := N2bits 64 X).
+    assert (Hlt : (lz x + tz x < 64)%nat).
+    { pose proof (lz_tz_lt x) as L. unfold x in L at 1 4. rewrite N2bits_length in L. apply L.
+      rewrite (iszero_N2bits64 X HX). apply N.eqb_neq. exact E0. }
+    set (l := Nat.min (lz x) 31).
+    assert (W : forall L, L = Z.of_nat l ->
+              (Z.of_nat l0 <=? L) && (Z.of_nat t0 <=? Z.of_nat (tz x)) = (l0 <=? l)%nat && (t0 <=? tz x)%nat)
+      by (intros L ->; lia).
+    destruct (32 <=? Z.of_nat (lz x)) eqn:E32.
+    + rewrite (W 31) by lia. destruct ((l0 <=? l)%nat && (t0 <=? tz x)%nat) eqn:EW; cbn [app].
+      * split; [apply reuse_bits; lia|split; [reflexivity|lia]].
+      * split; [apply new_bits; lia|split; [repeat f_equal; lia|lia]].
+    + rewrite (W (Z.of_nat (lz x))) by lia. destruct ((l0 <=? l)%nat && (t0 <=? tz x)%nat) eqn:EW; cbn [app].
+      * split; [apply reuse_bits; lia|split; [reflexivity|lia]].
+      * split; [apply new_bits; lia|split; [repeat f_equal; lia|lia]].
+Qed.
+
+(* ---------- one point ---------- *)
+Lemma bits2N_lt64 w : length w = 64%nat -> (bits2N w < 2 ^ 64)%N.
+Proof.
+  intros H. rewrite <- (N2bits_bits2N w), H. rewrite bits2N_N2bits.
+  apply N.mod_lt. discriminate.
+Qed.
+
+Theorem gen_Compress_is_model : forall (s : est) (t v : N),
+  est_ok s -> (t < 2 ^ 32)%N -> (v < 2 ^ 64)%N ->
+  let '(_, st', evs) := gen_Compress (abs_est s) (Z.of_N t) (Z.of_N v) in
+  let '(bits, s') := compress s t v in
+  evs_bits evs = bits /\ st' = abs_est s' /\ est_ok s'.
+Proof.
+  intros s t v (Hh & Ht & Htd & Hl & Htz & Hv) Ht32 Hv64.
+  unfold gen_Compress, abs_est, compress. cbv beta iota zeta.
+  destruct (e_t s =? 0) eqn:E0.
+  - rewrite (wrap_i32_is (Z.of_N t)). set (ti := wrap32s (Z.of_N t)).
+    rewrite (wrap_i32_is (ti - e_hdr s)), (wrap_i32_is (e_hdr s - ti)).
+    assert (Hti : in_i32 ti) by apply wrap32s_range.
+    assert (Hbits : forall delta,
+      evs_bits [(1, [wrap_u64 delta; 14]); (1, [Z.of_N v; 64])] = zbits 14 delta ++ vbits v).
+    { intros delta. cbn [evs_bits flat_map ev_bits app].
+      change (Z.to_nat 14) with 14%nat. change (Z.to_nat 64) with 64%nat.
+      rewrite app_nil_r, zbits_wrap_u64 by lia. rewrite zbits_of_N. reflexivity. }
+    destruct (wrap32s (ti - e_hdr s) <? 0) eqn:En; cbn [app]; (split; [apply Hbits|]);
+      cbn [e_hdr e_t e_td e_l e_tz e_v]; rewrite (bits2N_vbits v Hv64);
+      (split; [reflexivity|]); unfold est_ok; cbn [e_hdr e_t e_td e_l e_tz e_v];
+      repeat split; auto using wrap32s_range, vbits_length; try apply Hh; try apply Hti; try apply wrap32s_range.
+  - unfold gen_compress. cbv beta iota zeta.
+    pose proof (gen_compressTimestamp_is_model s t (Z.of_nat (e_l s)) (Z.of_nat (e_tz s)) (Z.of_N (bits2N (e_v s))) Ht Htd) as Hts.
+    unfold enc_ts in *. cbv beta iota zeta in Hts.
+    destruct (gen_compressTimestamp _ _) as [[r0 st1] ev1]. destruct Hts as [Hb1 Hst1]. subst st1.
+    cbv beta iota.
+    rewrite <- Hb1. clear Hb1.
+    pose proof (gen_compressValue_is_model (e_hdr s) (wrap32s (Z.of_N t)) (wrap32s (wrap32s (Z.of_N t) - e_t s))
+                  (e_l s) (e_tz s) (bits2N (e_v s)) v (bits2N_lt64 _ Hv) Hv64 Hl Htz) as Hvl.
+    pose proof (N2bits_bits2N (e_v s)) as Ev. rewrite Hv in Ev. rewrite Ev in Hvl. clear Ev.
+    fold (vbits v) in Hvl.
+    destruct (gen_compressValue _ _) as [[r1 st2] ev2].
+    destruct (enc_val (e_l s) (e_tz s) (e_v s) (vbits v)) as [[vb l] tz'].
+    destruct Hvl as (Hb2 & Hst2 & Hl' & Htz'). subst st2. cbv beta iota.
+    cbn [app e_hdr e_t e_td e_l e_tz e_v].
+    split; [|split].
+    + unfold evs_bits in *. rewrite flat_map_app. rewrite Hb2. reflexivity.
+    + rewrite (bits2N_vbits v Hv64). reflexivity.
+    + unfold est_ok. cbn [e_hdr e_t e_td e_l e_tz e_v].
+      repeat split; auto using wrap32s_range, vbits_length; try apply Hh; try apply wrap32s_range.
+Qed.
+Print Assumptions gen_Compress_is_model.
+
+(* ---------- every series ---------- *)
+Theorem gen_compress_all_is_model : forall (pts : list (N * N)) (s : est),
+  est_ok s -> Forall (fun p => (fst p < 2 ^ 32)%N /\ (snd p < 2 ^ 64)%N) pts ->
+  let '(bits, st') := gen_compress_all (abs_est s) pts in
+  let '(mbits, s') := compress_all s pts in
+  bits = mbits /\ st' = abs_est s'.
+Proof.
+  induction pts as [|[t v] pts IH]; intros s Hs Hall.
+  - cbn [gen_compress_all compress_all]. split; reflexivity.
+  - inversion Hall as [|p l [Ht Hv] Hall']; subst. cbn [fst snd] in Ht, Hv.
+    cbn [gen_compress_all compress_all]. unfold gen_step. cbn [fst snd].
+    pose proof (gen_Compress_is_model s t v Hs Ht Hv) as H1.
+    destruct (gen_Compress (abs_est s) (Z.of_N t) (Z.of_N v)) as [[u st1] evs].
+    destruct (compress s t v) as [b1 s1].
+    destruct H1 as [Hb [Hst Hok]]. subst st1. cbn [fst snd].
+    specialize (IH s1 Hok Hall').
+    destruct (gen_compress_all (abs_est s1) pts) as [bs st2].
+    destruct (compress_all s1 pts) as [mbs s2].
+    destruct IH as [IH1 IH2]. cbn [fst snd]. split; [congruence|exact IH2].
+Qed.
+Print Assumptions gen_compress_all_is_model.
+
+Theorem enc_init_ok : forall hdr : N, (hdr < 2 ^ 32)%N -> est_ok (enc_init hdr).
+Proof.
+  intros hdr Hh. unfold est_ok, enc_init. cbn [e_hdr e_t e_td e_l e_tz e_v].
+  repeat split; try apply wrap32s_range; try lia.
+Qed.
+Print Assumptions enc_init_ok.
+
+(* ---------- the finish marker and the whole bit stream of a series ---------- *)
+(* flush (event 2) pads the last byte with zero bits: that is `pack`, not part of the bit stream *)
+Theorem gen_finish_is_model : forall s : est,
+  let '(_, st', evs) := gen_finish (abs_est s) in
+  evs_bits evs = finish s /\ st' = abs_est s.
+Proof.
+  intros s. unfold gen_finish, abs_est, finish.
+  destruct (e_t s =? 0) eqn:E; cbn [app evs_bits flat_map ev_bits]; split; reflexivity.
+Qed.
+Print Assumptions gen_finish_is_model.
+
+(* header (NewCompressor writes it with writeBits(uint64(header), 32)), every point through the regenerated
+   Compress, then the regenerated finish *)
+Definition gen_encode_bits (hdr : N) (pts : list (N * N)) : list bool :=
+  let bs := gen_compress_all (abs_est (enc_init hdr)) pts in
+  let '(_, _, evs) := gen_finish (snd bs) in
+  ev_bits (1, [Z.of_N hdr; 32]) ++ fst bs ++ evs_bits evs.
+
+Theorem gen_encode_bits_is_model : forall (hdr : N) (pts : list (N * N)),
+  (hdr < 2 ^ 32)%N -> Forall (fun p => (fst p < 2 ^ 32)%N /\ (snd p < 2 ^ 64)%N) pts ->
+  gen_encode_bits hdr pts = encode_bits hdr pts.
+Proof.
+  intros hdr pts Hh Hp. unfold gen_encode_bits, encode_bits.
+  pose proof (gen_compress_all_is_model pts (enc_init hdr) (enc_init_ok hdr Hh) Hp) as H.
+  destruct (gen_compress_all (abs_est (enc_init hdr)) pts) as [bs st].
+  destruct (compress_all (enc_init hdr) pts) as [mbs s'].
+  destruct H as [Hb Hst]. subst bs st. cbn [fst snd].
+  pose proof (gen_finish_is_model s') as Hf.
+  destruct (gen_finish (abs_est s')) as [[u st'] evs]. destruct Hf as [Hf _]. rewrite Hf.
+  f_equal. unfold ev_bits, enc_header. rewrite zbits_of_N. reflexivity.
+Qed.
+Print Assumptions gen_encode_bits_is_model.
+
+(* the bytes produced by the regenerated compressor decode to the series that went in *)
+Theorem gen_encoder_roundtrip : forall (hdr : N) (pts : list (N * N)),
+  series_ok hdr pts -> (hdr < 2 ^ 32)%N -> Forall (fun p => (fst p < 2 ^ 32)%N /\ (snd p < 2 ^ 64)%N) pts ->
+  decode (pack (gen_encode_bits hdr pts)) = pts.
+Proof.
+  intros hdr pts Hok Hh Hp. rewrite gen_encode_bits_is_model by assumption.
+  exact (gorilla_roundtrip hdr pts Hok).
+Qed.
+Print Assumptions gen_encoder_roundtrip.
